@@ -7,12 +7,14 @@ KANI_FLAGS_BASE = ["--lib", "-Z", "stubbing"]
 DEPS_CACHE = os.path.join(scratch.CACHE, "kani-target-base")
 MEM_LIMIT_KB = int(os.environ.get("VERIF_MEM_KB", str(14 * 1024 * 1024)))
 MAX_PAR = int(os.environ.get("VERIF_JOBS", "12"))
+FS_ARRAY = int(os.environ.get("VERIF_FS_ARRAY", "4096"))
 
 
 class Harness:
     def __init__(self, name, group, props, tier="quick", timeout=600, memsafe=False, desc="",
                  encodes=(), bounds="", stubs=(), expect="hold", unwind=None, extra=(),
-                 native_replay=True, assumptions=()):
+                 native_replay=True, assumptions=(), fs_array=None):
+        self.fs_array = fs_array     # --max-field-sensitivity-array-size (None = CBMC default 64)
         self.name = name            # harness fn name (unique suffix)
         self.group = group
         self.props = props          # property ids this harness serves
@@ -144,6 +146,11 @@ def run_harness(root, h, workdir, extra_flags=()):
     if h.unwind:
         cmd += ["--default-unwind", str(h.unwind)]
     cmd += list(h.extra) + list(extra_flags)
+    # MUST be last: heap objects up to FS_ARRAY bytes stay field-sensitive in CBMC's symbolic
+    # execution, so data written to and read back from the heap is constant-folded (measured:
+    # engine APPEND harness OOM at 14 GB without it, 703 VCCs / 12 s with it)
+    if h.fs_array:
+        cmd += ["-Z", "unstable-options", "--cbmc-args", "--max-field-sensitivity-array-size", str(h.fs_array)]
     logp = os.path.join(workdir, h.name + ".log")
     t0 = time.time()
     with open(logp, "w") as lf:
